@@ -258,12 +258,25 @@ def replay(failure):
 
 
 def rerun(doc):
+    if doc.get("replay_kind") == "std_span_on_disk":
+        return _try_std_span_on_disk(doc["input"])
     if doc.get("replay_kind") == "foreign_span":
         return _try_foreign(doc["input"])
     return _try_two_files() if doc.get("replay_kind") == "two_files" else _try_lexer()
 
 
 SWEEP_DOC = "a project of two files with one syntax error each (every located error must quote a line of its own file) and a lexer error after multi-byte text (line 4, column 15): the real prqlc"
+
+
+# a project read from disk with ONE file and an error whose span lies in std.prql: the span means nothing in the user's file (round-8 seed C13-15)
+STD_SPAN_ON_DISK = ["from t\ntake 1..2..3\n", 'from_text "a,b\\n1"\n']
+
+
+def _try_std_span_on_disk(src):
+    rc, out = _project({"Project.prql": src})
+    rec = {"input": src, "replay_kind": "std_span_on_disk", "expected": "an error without a location in Project.prql (its span points into std.prql); no panic"}
+    rec.update(failing=("panicked" in out) or ("Project.prql:" in out) or rc == 0, observed=out[:400])
+    return rec
 
 
 def sweep():
@@ -274,6 +287,10 @@ def sweep():
     out = [a, b]
     for src in FOREIGN_SPAN:
         r = _try_foreign(src)
+        r["obligation"] = "compose_errors.CP4"
+        out.append(r)
+    for src in STD_SPAN_ON_DISK:
+        r = _try_std_span_on_disk(src)
         r["obligation"] = "compose_errors.CP4"
         out.append(r)
     return out
